@@ -73,6 +73,37 @@ def check_query_case(ctx, ast, doc, text, cls, *, extra=None, env=None, nontrivi
     if hooks.STATE.h2_violations:
         ctx.violation("H2-local-location-invariant:%s" % cls, case, {"text": text, "h2": list(hooks.STATE.h2_violations)})
         return False
+    if isinstance(doc, (dict, list)) and ctx.rng.random() < 0.06:
+        # the same document as JSON text, as a text stream and as a byte stream in some Unicode encoding; and through
+        # the lazy entry points with the stream closed as soon as the call has returned
+        import io
+        import json
+
+        from checks.c08 import STREAM_FORMS, stream_of
+
+        try:
+            roundtrips = impl.nodes_equal([(tuple(loc), v, "") for loc, v in ref.eval_query(ast, json.loads(json.dumps(doc)), extra=extra, keys_prefix=keys_prefix)], [(loc, _Val(v)) for loc, v in model]) is None
+        except (TypeError, ValueError, ref_regex.Unsupported):
+            roundtrips = False
+        if roundtrips:
+            form = ctx.rng.choice(STREAM_FORMS)
+            raw = ctx.rng.random() < 0.5
+            for how in ("findall", "finditer then close", "query then close"):
+                def run_():
+                    st = stream_of(doc, form, raw)
+                    if how == "findall":
+                        return [canon(v) for v in env.findall(text, st, **kw)]
+                    res = env.finditer(text, st, **kw) if how.startswith("finditer") else env.query(text, st, **kw)
+                    if hasattr(st, "close"):
+                        st.close()
+                    return [canon(m.obj) for m in res]
+                o = impl.call(run_)
+                ctx.count("stream_document_evaluations")
+                if not o.ok and isinstance(o.exc, (UnicodeEncodeError,)):
+                    break
+                if not o.ok or o.value != [canon(v) for _loc, v in model]:
+                    ctx.violation("document-as-a-stream-evaluates-differently:%s" % how.split()[0], case, {"text": text, "form": form, "raw_non_ascii": raw, "how": how, "got": o.desc() if not o.ok else repr(o.value)[:300], "model": repr([canon(v) for _l, v in model])[:300]})
+                    return False
     if extra is not None and isinstance(extra, dict) and ctx.rng.random() < 0.2:
         # the same filter context as a lazily answering Mapping (item access and `in` agree, iteration lists only some
         # names; nested objects too), as a ChainMap and as a read-only proxy: what `_` reads must not change
